@@ -50,11 +50,17 @@ class Dispatcher(DispatcherBase):
         read_callback: Callable,
         check_callback: Callable,
     ) -> None:
+        sock = self.app.sock.sock
+        # a ws:// URL may have been redirected to wss://: data already decrypted
+        # and buffered inside an SSL socket never makes the descriptor readable
+        pending = getattr(sock, "pending", None)
         sel = selectors.DefaultSelector()
-        sel.register(self.app.sock.sock, selectors.EVENT_READ)
+        sel.register(sock, selectors.EVENT_READ)
         try:
             while self.app.keep_running:
-                if sel.select(self.ping_timeout):
+                if (pending is not None and pending()) or sel.select(
+                    self.ping_timeout
+                ):
                     if not read_callback():
                         break
                 check_callback()
@@ -87,7 +93,9 @@ class SSLDispatcher(DispatcherBase):
 
     def select(self, sock, sel: selectors.DefaultSelector):
         sock = self.app.sock.sock
-        if sock.pending():
+        # a wss:// URL may have been redirected to ws://: a plain socket has no pending()
+        pending = getattr(sock, "pending", None)
+        if pending is not None and pending():
             return [
                 sock,
             ]
